@@ -12,6 +12,7 @@ CONSTANTS
   Policy = "lc"
   Selectors = {"s1", "s2"}
   MaxSel = 3
+  TornDraw = FALSE
   Kinds = {"add", "remove", "existing", "replace", "mark"}
 VIEW BGenView
 ACTION_CONSTRAINT BEmit
